@@ -136,8 +136,10 @@ def _job(args):
                 for p, names in ((p_short, c["short"]), (p_full, c["comps"])):
                     txt = p.read_text().replace("@startuml\n", "@startuml\n" + "".join(f"component [{x}]\n" for x in names))
                     p.write_text(txt)
-                r1 = rules.run_rule(DiagramRule(should_only_rule=only).from_file(p_short).with_base_module(c["base"]), arch)
-                r2 = rules.run_rule(DiagramRule(should_only_rule=only).from_file(p_full).base_module_included_in_module_names(), arch)
+                # the documented default is the should-only mode: half of those rules are built with the bare constructor
+                mk = (lambda: DiagramRule()) if only and i % 2 == 0 else (lambda: DiagramRule(should_only_rule=only))
+                r1 = rules.run_rule(mk().from_file(p_short).with_base_module(c["base"]), arch)
+                r2 = rules.run_rule(mk().from_file(p_full).base_module_included_in_module_names(), arch)
                 out["n"] += 2
                 ok, why = conforms(c["nodes"], c["edges"], c["comps"], set(map(tuple, c["rel"])), only)
                 case = dict(nodes=c["nodes"], edges=c["edges"], components=c["comps"], relation=c["rel"], should_only=only, base_module=c["base"],
